@@ -472,6 +472,15 @@ def program_equivalence(prog1, prog2, compare_params=True, atol=1e-6, rtol=0):
                 if not np.allclose(bs_params, [np.pi / 4, np.pi / 2]):
                     wire_mapping[i] = [j.ind for j in n.reg]
 
+            elif (
+                len(n.reg) > 1
+                and n.op.__class__.__name__ not in ("S2gate", "CZgate", "CKgate")
+                and not n.op.__class__.__name__.startswith("Measure")
+            ):
+                # every other multi-mode operation (MZgate, sMZgate, interferometers, ...) is not
+                # symmetric under permuting its modes either: the order of the wires matters
+                wire_mapping[i] = [j.ind for j in n.reg]
+
         # add node attributes to store the operation wires
         nx.set_node_attributes(circuit[-1], wire_mapping, name="w")
 
